@@ -7,7 +7,7 @@ from harness.env import SpyExecutor, SpyFuture, desc
 from harness.oracles import abnormal
 
 PROP = "C02"
-PLAN = {"quick": {"runs": 16000, "wall_s": 90}, "thorough": {"runs": 400000, "wall_s": 1200}}
+PLAN = {"quick": {"runs": 28000, "wall_s": 90}, "thorough": {"runs": 400000, "wall_s": 1200}}
 RULE = ("Each run: one subject future from a drawn producer (every executor class and f_* combinator), whose "
         "underlying work ends by value, exception, cancellation through it or behind its back, while 2-3 client "
         "threads issue a drawn history of cancel / add_done_callback / result / exception / wait / as_completed / "
@@ -55,6 +55,13 @@ def gen(rng, tier):
         clients.append(ops)
     if rng.random() < 0.5:
         clients[0].insert(0, [rng.choice(["cb", "cb", "cbraise"])])   # a callback registered up front
+    if rng.random() < 0.2:
+        # window family: callbacks registered first, then a cancel() placed inside a window of user
+        # code (callable / poll function / another callback running), racing whatever completes the
+        # future there; a second client observes or waits
+        t1 = rng.choice(triggers)
+        clients = [[["cb"]] * rng.choice([1, 2]) + [["await", t1], ["cancel"]],
+                   [["await", rng.choice(triggers)], [rng.choice(["cb", "cancel", "result", "done", "wait"])]]]
     spec["clients"] = clients
     spec["sim"] = runner.draw_sim_cfg(rng, est=500, stall_ok=True)
     spec["sim"]["horizon_s"] = 30000
